@@ -25,7 +25,11 @@ type c14msg struct {
 	raw   []byte
 	valid bool   // expected to be adopted (given >= 3 usable nodes)
 	class string // for unusable replies
+	info  map[string]string // what INFO says about these addresses WHILE this message is processed: "loading", "down", "dialerr"
 }
+
+// c14InfoNow: per-message INFO answers (set before the message is handed to the reference / to the refresh goroutine)
+var c14InfoNow map[string]string
 
 func bulkNodes(text string) []byte {
 	if !strings.HasSuffix(text, "\n") {
@@ -91,6 +95,9 @@ func c14Alphabet() []c14msg {
 		{name: "replica-disconnected", raw: bulkNodes(strings.Replace(c14Base(), line("a1", AddrA1, "slave", "aaa", ""), line("a1", AddrA1, "slave", "aaa", "disconnected"), 1)), valid: true},
 		{name: "handshake-noaddr", raw: bulkNodes(c14Base() + "\n" + line("eee", "10.0.6.1:7000", "handshake", "-", "") + "\n" + "fff :0@0 master,noaddr - 0 0 1 disconnected 100-200" + "\n" + line("ggg", "10.0.6.2:7000", "slave,fail", "aaa", "")), valid: true},
 		{name: "new-replicas-info", raw: bulkNodes(c14Base() + "\n" + line("n1", nLoad, "slave", "ccc", "") + "\n" + line("n2", nDown, "slave", "ccc", "") + "\n" + line("n3", nDialErr, "slave", "ccc", "") + "\n" + line("n4", nOk, "slave", "ccc", "")), valid: true},
+		// a replica that was adopted, dropped, and is listed again while it is still synchronising (a restarted node)
+		{name: "a2-listed-while-loading", raw: bulkNodes(c14Base()), valid: true, info: map[string]string{AddrA2: "loading"}},
+		{name: "a2-listed-while-link-down", raw: bulkNodes(c14Base()), valid: true, info: map[string]string{AddrA2: "down"}},
 		{name: "unclaimed-range", raw: bulkNodes(strings.Replace(c14Base(), "10923-16383", "10923-12000", 1)), valid: true},
 		{name: "nil-bulk", raw: []byte("$-1\r\n"), class: "nil-bulk"},
 		{name: "error", raw: []byte("-ERR unknown command 'cluster'\r\n"), class: "error"},
@@ -112,6 +119,14 @@ type refTopo struct {
 }
 
 func c14Info(addr string) (*redis.Info, error) {
+	switch c14InfoNow[strings.TrimPrefix(addr, "dial:")] {
+	case "loading":
+		return &redis.Info{Version: "6.0.0", Loading: true, MasterLinkStatus: "up"}, nil
+	case "down":
+		return &redis.Info{Version: "6.0.0", MasterLinkStatus: "down"}, nil
+	case "dialerr":
+		return nil, errors.New("dial tcp: connection refused")
+	}
 	switch addr {
 	case nLoad:
 		return &redis.Info{Version: "6.0.0", Loading: true, MasterLinkStatus: "up"}, nil
@@ -253,10 +268,12 @@ func c14Run(hist []int, alpha []c14msg) (sig, msg, state string) {
 			}
 		}
 	}
+	c14InfoNow = nil
 	adopt(bulkNodes(c14Base()))
 	lastUnusable := ""
 	for _, h := range hist {
 		before := ref
+		c14InfoNow = alpha[h].info
 		adopt(alpha[h].raw)
 		if alpha[h].class != "" && ref == before {
 			lastUnusable = alpha[h].class
@@ -266,6 +283,7 @@ func c14Run(hist []int, alpha []c14msg) (sig, msg, state string) {
 
 	w := world.ExecuteWith(sc, func(string, int) int { return 0 }, func(w *world.World) {
 		barrier = make(chan string, 4)
+		c14InfoNow = nil
 		vw, err := core.VerifBoot(w.Handler, w.Ln.Fd, w.Opts, c14Base(), func(addr string) (*redis.Info, error) {
 			if strings.HasPrefix(addr, "10.255.") {
 				if kill {
@@ -286,7 +304,9 @@ func c14Run(hist []int, alpha []c14msg) (sig, msg, state string) {
 		base := runtime.NumGoroutine() // main + refresh goroutine (+ runtime helpers)
 		dead := false
 		diedOn := ""
+		c14InfoNow = nil
 		for i, h := range hist {
+			c14InfoNow = alpha[h].info
 			// message, then a barrier: when the barrier's INFO probe arrives, the message has been processed
 			if !core.VerifSendProbeReply(alpha[h].raw, done) || !core.VerifSendProbeReply(bulkNodes(line("bar", fmt.Sprintf("10.255.0.%d:1", i+1), "slave", "nobody", "")), done) {
 				dead = true
@@ -950,7 +970,7 @@ func init() {
 		return fmt.Sprintf("history %s\nverdict: %s %s", c18Describe(h), sig, msg), sig != ""
 	}
 	register(&Check{ID: "C14", Level: "model_checking",
-		Rule: "breadth-first search over histories of probe replies pushed through the REAL refresh goroutine (loopClusterNodes) and the real ticker: alphabet of 19 messages = 11 valid texts (base, failover with failed master, slot range moved, range split with migration markers, node added, replica removed, replica re-parented, replica disconnected, handshake/noaddr/failed extra nodes, new replicas whose INFO says loading / link down / dial error / ok, unclaimed range) + 8 unusable replies (nil bulk, two error replies, status, oversize > 163840, two usable nodes, 7-column lines, garbage text); depth 3 (thorough 4) with de-duplication on the canonical dump of the real refresh state; additionally ~100 generated single texts (one node line varied over 10 flag combinations x 2 link states x 5 slot-range shapes incl. migration markers and a master without slots, blank lines, missing cluster port, address without host) as histories [text], [base,text], [text,base]; an end-to-end family runs the whole path ticker -> probe -> reply -> channel -> real refresh goroutine -> ticker with client traffic (time advances only when the network is idle), including a table node that is unreachable for four rounds before the failover is reported, under every outcome of the probe-target choice afterwards (cross-execution oracle: some outcome adopts the new table); a barrier message makes 'all earlier replies processed' deterministic; oracle: after two ticker rounds of virtual time the slot->(master, replica set) map for ALL 16384 slots and the pool set/roles equal the reference built from the LAST VALID text, and the goroutine is still alive; states = distinct real refresh states reached; transitions = messages delivered",
+		Rule: "breadth-first search over histories of probe replies pushed through the REAL refresh goroutine (loopClusterNodes) and the real ticker: alphabet of 21 messages = 13 valid texts (base, the base text while INFO reports a2 loading / its master link down - which matters exactly when a2 had been dropped before -, failover with failed master, slot range moved, range split with migration markers, node added, replica removed, replica re-parented, replica disconnected, handshake/noaddr/failed extra nodes, new replicas whose INFO says loading / link down / dial error / ok, unclaimed range) + 8 unusable replies (nil bulk, two error replies, status, oversize > 163840, two usable nodes, 7-column lines, garbage text); depth 3 (thorough 4) with de-duplication on the canonical dump of the real refresh state; additionally ~100 generated single texts (one node line varied over 10 flag combinations x 2 link states x 5 slot-range shapes incl. migration markers and a master without slots, blank lines, missing cluster port, address without host) as histories [text], [base,text], [text,base]; an end-to-end family runs the whole path ticker -> probe -> reply -> channel -> real refresh goroutine -> ticker with client traffic (time advances only when the network is idle), including a table node that is unreachable for four rounds before the failover is reported, under every outcome of the probe-target choice afterwards (cross-execution oracle: some outcome adopts the new table); a barrier message makes 'all earlier replies processed' deterministic; oracle: after two ticker rounds of virtual time the slot->(master, replica set) map for ALL 16384 slots and the pool set/roles equal the reference built from the LAST VALID text, and the goroutine is still alive; states = distinct real refresh states reached; transitions = messages delivered",
 		Seq:  c14Seq, Scenarios: c14E2EScenarios, BudgetQuick: 100, BudgetThorough: 1500,
 		Assumptions: []string{"'within a few seconds' = within two ticker rounds of virtual time", "the INFO probe of newly discovered nodes is answered by a stub; the health monitor is not run", "memory-model races between the refresh goroutine and the loop are outside the technique (the barrier orders them)"}})
 	register(&Check{ID: "C18", Level: "model_checking",
